@@ -52,7 +52,7 @@ func GenGame(prop string, seed uint64) *Scenario {
 	case 1:
 		g.MovesToGo = rng.Range(1, 5)
 	case 2:
-		g.MovesToGo = rng.Range(1, 40)
+		g.MovesToGo = widenMovesToGo(rng.Range(1, 40))
 	}
 	g.GuiLagUs = rng.LogRange(1, 20000)
 	if g.StartFen == rules.StartFen && rng.Chance(0.35) {
@@ -123,4 +123,15 @@ func GenGame(prop string, seed uint64) *Scenario {
 	}
 	sc.Game = g
 	return sc
+}
+
+// widenMovesToGo maps the upper fifth of the drawn range 1..40 to long
+// controls (60, 80, ... 200 moves to go) without a further draw: controls
+// like 80 moves in 2 h announce more moves than any estimate the engine
+// makes by itself.
+func widenMovesToGo(v int) int {
+	if v > 32 {
+		return 40 + (v-32)*20
+	}
+	return v
 }
